@@ -19,6 +19,8 @@ import (
 
 	pt "gitlab.torproject.org/tpo/anti-censorship/pluggable-transports/goptlib"
 
+	"gitlab.com/yawning/obfs4.git/common/drbg"
+	"gitlab.com/yawning/obfs4.git/common/probdist"
 	"gitlab.com/yawning/obfs4.git/internal/verifkit/detrand"
 	"gitlab.com/yawning/obfs4.git/internal/verifkit/drive"
 	"gitlab.com/yawning/obfs4.git/internal/verifkit/ev"
@@ -44,7 +46,7 @@ func vf15Evidence() *ev.Collector {
 	c.Assume("the reference server verifkit/refss is the conforming peer: it implements the deployed format as described in C15 (anchors: RFC 5869 case 1, RFC 4231 case 2, RFC 3526 group 5 is a safe prime, UniformDH agreement in all X/p-X combinations, packet codec round trip against longhand code)")
 	c.Assume("stdlib SHA-256, HMAC, AES-CTR and math/big are trusted")
 	c.Assume("a conforming server accepts the client's epoch hour when it is its own hour or one off, and echoes it in MAC_S")
-	c.Assume("liveness is decided at quiescence of the client goroutine on a wire whose every input is owned by the harness; C15 claims no promptness, so delivery is compared exactly only after a final empty packet")
+	c.Assume("liveness is decided at quiescence of the client goroutine on a wire whose every input is owned by the harness: the driver's reader loops on Read, so once it is parked in the network read whatever has arrived in complete packets must have been delivered (payload), stored (NEW_TICKET) or applied (PRNG_SEED; compared through probdist.New of the same seed)")
 	c.Assume("wrong shared secret / tampered response are claimed for the UniformDH handshake only: the ticket handshake has no server response and does not use the shared secret")
 	return c
 }
@@ -70,6 +72,8 @@ type vf15Pkt struct {
 	end     int // offset in the server->client stream where the packet ends
 	cum     int // payload bytes delivered once the packet is complete
 	corrupt bool
+	flags   byte
+	ctl     []byte // payload of a NEW_TICKET / PRNG_SEED packet
 }
 
 // vf15Link is one connection attempt: real client on side A, reference server
@@ -92,6 +96,7 @@ type vf15Link struct {
 	corrupted bool      // a deliberately modified packet is in the stream
 	tampered  bool      // the response was modified / the secret is wrong
 	wrote     []byte    // payload the client application has written
+	ctlNext   int       // first packet whose control effect has not been checked yet
 }
 
 // vf15Dial starts the real client: ParseArgs + Dial through the public factory
@@ -203,7 +208,11 @@ func (l *vf15Link) packet(flags byte, payload []byte, pad int, corrupt func(pkt 
 	if flags == refss.FlagPayload {
 		l.sent = append(l.sent, payload...)
 	}
-	l.pkts = append(l.pkts, vf15Pkt{end: l.queued, cum: len(l.sent), corrupt: corrupt != nil})
+	p := vf15Pkt{end: l.queued, cum: len(l.sent), corrupt: corrupt != nil, flags: flags}
+	if flags != refss.FlagPayload {
+		p.ctl = append([]byte(nil), payload...)
+	}
+	l.pkts = append(l.pkts, p)
 }
 
 // arrived returns the number of payload bytes carried by packets that lie
@@ -224,7 +233,61 @@ func (l *vf15Link) arrived() int {
 // one segment and waits for quiescence.
 func (l *vf15Link) release(k int) string {
 	l.n.Release(wire.B, k)
-	return l.quiesce()
+	if msg := l.quiesce(); msg != "" {
+		return msg
+	}
+	return l.checkControl()
+}
+
+// intact reports whether the connection is established over an unmodified
+// stream: Dial has returned nil, nothing was tampered with, no Read error.
+func (l *vf15Link) intact() bool {
+	return !l.corrupted && !l.tampered && l.ep.SetupDone() && l.ep.SetupErr() == nil && l.ep.ReadErr() == nil
+}
+
+// checkControl is called at quiescence: a NEW_TICKET packet that has arrived
+// completely must be in the ticket store, a PRNG_SEED packet must have reset
+// the length distribution (the client's reader loops on Read and is parked, so
+// nothing else can make it process them later).  Looks at the packets that
+// became complete since the last call.
+func (l *vf15Link) checkControl() string {
+	if !l.intact() {
+		return ""
+	}
+	ss, ok := l.ep.Conn().(*ssConn)
+	if !ok {
+		return ""
+	}
+	rel := int(l.n.Released(wire.B))
+	var ticket, seed []byte
+	for l.ctlNext < len(l.pkts) && l.pkts[l.ctlNext].end <= rel {
+		switch p := l.pkts[l.ctlNext]; p.flags {
+		case refss.FlagNewTicket:
+			ticket = p.ctl
+		case refss.FlagPrngSeed:
+			seed = p.ctl
+		}
+		l.ctlNext++
+	}
+	if ticket != nil {
+		ss.ticketStore.Lock()
+		t := ss.ticketStore.store[l.addr]
+		stored := t != nil && bytes.Equal(t.key[:], ticket[:ticketKeyLength]) && bytes.Equal(t.ticket[:], ticket[ticketKeyLength:])
+		ss.ticketStore.Unlock()
+		if !stored {
+			return fmt.Sprintf("VIOL[c15-ticket-stalled]: a NEW_TICKET packet has arrived completely (%d of %d stream bytes released, response %d bytes) and the client is parked, but the ticket store for %s does not hold that ticket (holds one: %v)", rel, l.queued, l.respLen, l.addr, t != nil)
+		}
+	}
+	if seed != nil {
+		sd, err := drbg.SeedFromBytes(seed)
+		if err != nil {
+			return "harness: " + err.Error()
+		}
+		if want := probdist.New(sd, minLenDistLength, maxLenDistLength, true).String(); ss.lenDist.String() != want {
+			return fmt.Sprintf("VIOL[c15-seed-stalled]: a PRNG_SEED packet has arrived completely (%d of %d stream bytes released, response %d bytes) and the client is parked, but its length distribution is not the one of that seed", rel, l.queued, l.respLen)
+		}
+	}
+	return ""
 }
 
 // handshakeDone demands that Dial has returned successfully; called at
@@ -239,9 +302,13 @@ func (l *vf15Link) handshakeDone(ctx string) string {
 	return ""
 }
 
-// checkDelivery is the step oracle of the server->client direction: never
-// anything but a prefix of what the server sent, never more than has arrived,
-// no error on an unmodified stream.
+// checkDelivery is the step oracle of the server->client direction, called at
+// quiescence: never anything but a prefix of what the server sent, never more
+// than has arrived, no error on an unmodified stream, and — once Dial has
+// returned, on an unmodified stream — everything that has arrived in complete
+// packets has been delivered: the reader loops on Read and is parked in the
+// network read, so whatever is complete and undelivered now stays undelivered
+// unless more traffic arrives.
 func (l *vf15Link) checkDelivery(ctx string) string {
 	got := l.ep.Got()
 	if len(got) > len(l.sent) || !bytes.Equal(got, l.sent[:len(got)]) {
@@ -253,21 +320,32 @@ func (l *vf15Link) checkDelivery(ctx string) string {
 	if err := l.ep.ReadErr(); err != nil && !l.corrupted {
 		return fmt.Sprintf("VIOL[c15-read-error]: %s: Read failed on an unmodified stream after %d bytes: %v", ctx, len(got), err)
 	}
-	return ""
+	if l.intact() {
+		if a := l.arrived(); len(got) != a {
+			return fmt.Sprintf("VIOL[c15-stream-stalled]: %s: %d payload bytes have arrived in complete packets (%d of %d stream bytes released, response %d bytes), the client has delivered %d and is parked in the network read", ctx, a, l.n.Released(wire.B), l.queued, l.respLen, len(got))
+		}
+	}
+	return l.checkControl()
 }
 
-// flushAndCompare sends the final empty packet, releases everything and
-// demands exact equality.
-func (l *vf15Link) flushAndCompare(ctx string) string {
-	l.packet(refss.FlagPayload, nil, 0, nil)
-	if msg := l.release(l.n.Pending(wire.B)); msg != "" {
-		return msg
-	}
-	if msg := l.checkDelivery(ctx); msg != "" {
-		return msg
-	}
-	if got := l.ep.Got(); !bytes.Equal(got, l.sent) {
-		return fmt.Sprintf("VIOL[c15-stream-short]: %s: everything was released and an empty packet followed, client delivered %d of %d bytes", ctx, len(got), len(l.sent))
+// finalCompare releases everything and demands exact equality at quiescence.
+// With alsoFlush an empty packet follows and equality is demanded again (the
+// ending the check used while it did not claim delivery without more traffic).
+func (l *vf15Link) finalCompare(ctx string, alsoFlush bool) string {
+	for round := 0; round < 2; round++ {
+		if msg := l.release(l.n.Pending(wire.B)); msg != "" {
+			return msg
+		}
+		if msg := l.checkDelivery(ctx); msg != "" {
+			return msg
+		}
+		if got := l.ep.Got(); !bytes.Equal(got, l.sent) {
+			return fmt.Sprintf("VIOL[c15-stream-short]: %s: everything was released, client delivered %d of %d bytes", ctx, len(got), len(l.sent))
+		}
+		if !alsoFlush || round == 1 {
+			break
+		}
+		l.packet(refss.FlagPayload, nil, 0, nil)
 	}
 	return ""
 }
